@@ -30,22 +30,111 @@ func compareSummaries(p *Program, code, spec *Summary) *equivResult {
 			r.Details = append(r.Details, fmt.Sprintf(format, a...))
 		}
 	}
+	rename := map[string]string{} // reference symbol -> code symbol (loop-carried values up to permutation)
+	eq := func(a, b *Term) (bool, *mismatch) {
+		if a == nil || b == nil {
+			return a == b, &mismatch{A: "absent/present", B: "absent/present"}
+		}
+		ok, m, cases := equivTermsR(a, b, maxAtoms, rename)
+		r.Cases += cases
+		return ok, m
+	}
 	cmp := func(label string, a, b *Term) {
 		r.Labels++
-		if a == nil || b == nil {
-			if a != b {
-				fail("%s: present on one side only", label)
-			}
-			return
-		}
-		ok, m, cases := equivTerms(a, b, maxAtoms)
-		r.Cases += cases
+		ok, m := eq(a, b)
 		if !ok {
 			if r.Finger == "" {
 				h := sha1.Sum([]byte(m.A))
 				r.Finger = fmt.Sprintf("%s=%x", label, h[:4])
 			}
 			fail("%s differs: %s", label, m)
+		}
+	}
+	// --- loops first: fixes the correspondence of loop-carried values
+	if len(code.Loops) != len(spec.Loops) {
+		fail("loop structure differs: code has %d loops, the reference %d", len(code.Loops), len(spec.Loops))
+	} else {
+		for i, cl := range code.Loops {
+			sl := spec.Loops[i]
+			if cl.Parent != sl.Parent {
+				fail("loop L%d nesting differs", i)
+			}
+			if len(cl.Vars) != len(sl.Vars) {
+				fail("L%d: %d loop-carried values in the code, %d in the reference (%s | %s)", i, len(cl.Vars), len(sl.Vars), varNames(cl), varNames(sl))
+				continue
+			}
+			// find a bijection code var j <-> reference var perm[j] under which init and step agree
+			n := len(cl.Vars)
+			perm := make([]int, n)
+			used := make([]bool, n)
+			tries := 0
+			var search func(j int) bool
+			search = func(j int) bool {
+				if j == n {
+					for a := 0; a < n; a++ {
+						if ok, _ := eq(cl.Vars[a].Step, sl.Vars[perm[a]].Step); !ok {
+							return false
+						}
+					}
+					return true
+				}
+				for k := 0; k < n; k++ {
+					if used[k] {
+						continue
+					}
+					tries++
+					if tries > 400 {
+						return false
+					}
+					if ok, _ := eq(cl.Vars[j].Init, sl.Vars[k].Init); !ok {
+						continue
+					}
+					used[k], perm[j] = true, k
+					from, to := fmt.Sprintf("L%d.v%d", i, k), fmt.Sprintf("L%d.v%d", i, j)
+					rename[from] = to
+					if search(j + 1) {
+						return true
+					}
+					delete(rename, from)
+					used[k] = false
+				}
+				return false
+			}
+			// identity first (cheap, and gives the most readable report)
+			identity := true
+			for a := 0; a < n; a++ {
+				rename[fmt.Sprintf("L%d.v%d", i, a)] = fmt.Sprintf("L%d.v%d", i, a)
+			}
+			for a := 0; a < n && identity; a++ {
+				ok1, _ := eq(cl.Vars[a].Init, sl.Vars[a].Init)
+				ok2, _ := eq(cl.Vars[a].Step, sl.Vars[a].Step)
+				identity = ok1 && ok2
+			}
+			if !identity {
+				for a := 0; a < n; a++ {
+					delete(rename, fmt.Sprintf("L%d.v%d", i, a))
+				}
+				if !search(0) {
+					// report with the identity mapping
+					for a := 0; a < n; a++ {
+						rename[fmt.Sprintf("L%d.v%d", i, a)] = fmt.Sprintf("L%d.v%d", i, a)
+					}
+					for a := 0; a < n; a++ {
+						cmp(fmt.Sprintf("L%d.v%d(%s).init", i, a, cl.Vars[a].Name), cl.Vars[a].Init, sl.Vars[a].Init)
+						cmp(fmt.Sprintf("L%d.v%d(%s).step", i, a, cl.Vars[a].Name), cl.Vars[a].Step, sl.Vars[a].Step)
+					}
+				}
+			}
+			r.Labels += 2 * n
+			cmp(fmt.Sprintf("L%d.cond", i), cl.Cond, sl.Cond)
+			cmp(fmt.Sprintf("L%d.over", i), cl.Over, sl.Over)
+			if len(cl.Exits) != len(sl.Exits) {
+				fail("L%d: %d early exits in the code, %d in the reference", i, len(cl.Exits), len(sl.Exits))
+			} else {
+				matchUnordered(len(cl.Exits), func(a, b int) bool { ok, _ := eq(cl.Exits[a], sl.Exits[b]); return ok },
+					func(a int) { cmp(fmt.Sprintf("L%d.exit%d", i, a), cl.Exits[a], sl.Exits[a]) })
+				r.Labels += len(cl.Exits)
+			}
 		}
 	}
 	if len(code.Results) != len(spec.Results) {
@@ -55,48 +144,50 @@ func compareSummaries(p *Program, code, spec *Summary) *equivResult {
 			cmp(fmt.Sprintf("result#%d", i), code.Results[i], spec.Results[i])
 		}
 	}
-	if len(code.Loops) != len(spec.Loops) {
-		fail("loop structure differs: code has %d loops, the reference %d", len(code.Loops), len(spec.Loops))
+	// --- effects: an unordered collection per region (independent statements may be reordered; data
+	// dependences are part of the terms, random draws carry their sequence number)
+	if len(code.Effects) != len(spec.Effects) {
+		fail("effects differ: code %s | reference %s", effectKinds(p, code), effectKinds(p, spec))
 	} else {
-		for i, cl := range code.Loops {
-			sl := spec.Loops[i]
-			if cl.Parent != sl.Parent {
-				fail("loop L%d nesting differs", i)
+		same := func(a, b int) bool {
+			ce, se := code.Effects[a], spec.Effects[b]
+			if ce.Kind != se.Kind || ce.Region != se.Region || len(ce.Args) != len(se.Args) {
+				return false
 			}
-			cmp(fmt.Sprintf("L%d.cond", i), cl.Cond, sl.Cond)
-			cmp(fmt.Sprintf("L%d.over", i), cl.Over, sl.Over)
-			if len(cl.Exits) != len(sl.Exits) {
-				fail("L%d: %d early exits in the code, %d in the reference", i, len(cl.Exits), len(sl.Exits))
-			} else {
-				for j := range cl.Exits {
-					cmp(fmt.Sprintf("L%d.exit%d", i, j), cl.Exits[j], sl.Exits[j])
+			if ok, _ := eq(ce.Guard, se.Guard); !ok {
+				return false
+			}
+			for j := range ce.Args {
+				if ok, _ := eq(ce.Args[j], se.Args[j]); !ok {
+					return false
 				}
 			}
-			if len(cl.Vars) != len(sl.Vars) {
-				fail("L%d: %d loop-carried values in the code, %d in the reference (%s | %s)", i, len(cl.Vars), len(sl.Vars), varNames(cl), varNames(sl))
-				continue
-			}
-			for j := range cl.Vars {
-				cmp(fmt.Sprintf("L%d.v%d(%s).init", i, j, cl.Vars[j].Name), cl.Vars[j].Init, sl.Vars[j].Init)
-				cmp(fmt.Sprintf("L%d.v%d(%s).step", i, j, cl.Vars[j].Name), cl.Vars[j].Step, sl.Vars[j].Step)
-			}
+			return true
 		}
-	}
-	if len(code.Effects) != len(spec.Effects) {
-		fail("effect sequence differs: code %s | reference %s", effectKinds(p, code), effectKinds(p, spec))
-	} else {
-		for i, ce := range code.Effects {
-			se := spec.Effects[i]
-			label := fmt.Sprintf("effect#%d(%s@%s)", i, ce.Kind, p.pos(ce.Pos))
-			if ce.Kind != se.Kind || ce.Region != se.Region || len(ce.Args) != len(se.Args) {
-				fail("%s: code has %s in region %d, the reference %s in region %d", label, ce.Kind, ce.Region, se.Kind, se.Region)
-				continue
+		matchUnordered(len(code.Effects), same, func(a int) {
+			ce := code.Effects[a]
+			// report against the reference effect of the same kind and region that is closest in order
+			best := -1
+			for b, se := range spec.Effects {
+				if se.Kind == ce.Kind && se.Region == ce.Region && len(se.Args) == len(ce.Args) && (best < 0 || abs(b-a) < abs(best-a)) {
+					best = b
+				}
 			}
+			label := fmt.Sprintf("effect#%d(%s@%s)", a, ce.Kind, p.pos(ce.Pos))
+			if best < 0 {
+				fail("%s: no %s effect in region %d of the reference", label, ce.Kind, ce.Region)
+				if r.Finger == "" {
+					r.Finger = fmt.Sprintf("effect(%s)=unmatched", ce.Kind)
+				}
+				return
+			}
+			se := spec.Effects[best]
 			cmp(label+".guard", ce.Guard, se.Guard)
 			for j := range ce.Args {
 				cmp(fmt.Sprintf("%s.arg%d", label, j), ce.Args[j], se.Args[j])
 			}
-		}
+		})
+		r.Labels += len(code.Effects)
 	}
 	if len(code.Closures) != len(spec.Closures) {
 		fail("number of function literals differs")
@@ -106,6 +197,9 @@ func compareSummaries(p *Program, code, spec *Summary) *equivResult {
 			r.Cases += sub.Cases
 			r.Labels += sub.Labels
 			if !sub.OK {
+				if r.Finger == "" {
+					r.Finger = fmt.Sprintf("closure#%d.%s", i, sub.Finger)
+				}
 				for _, d := range sub.Details {
 					fail("closure#%d: %s", i, d)
 				}
@@ -113,6 +207,40 @@ func compareSummaries(p *Program, code, spec *Summary) *equivResult {
 		}
 	}
 	return r
+}
+
+func abs(i int) int {
+	if i < 0 {
+		return -i
+	}
+	return i
+}
+
+// matchUnordered pairs n code items with n reference items (greedy, identity first); onFail is called for
+// every code item left without partner.
+func matchUnordered(n int, same func(a, b int) bool, onFail func(a int)) {
+	used := make([]bool, n)
+	var unmatched []int
+	for a := 0; a < n; a++ {
+		if !used[a] && same(a, a) {
+			used[a] = true
+			continue
+		}
+		found := false
+		for b := 0; b < n; b++ {
+			if !used[b] && b != a && same(a, b) {
+				used[b] = true
+				found = true
+				break
+			}
+		}
+		if !found {
+			unmatched = append(unmatched, a)
+		}
+	}
+	for _, a := range unmatched {
+		onFail(a)
+	}
 }
 
 func varNames(l *LoopSum) string {
@@ -144,8 +272,9 @@ func (p *Program) specPairs() (pairs []specPair, missing []string) {
 			continue
 		}
 		key := strings.Replace(funcKey(sf), specPrefix, "", 1)
-		cf := p.Func(key)
-		if cf == nil {
+		cf := p.codeFor(sf)
+		if cf == nil || !sameInterface(cf, sf) {
+			// renamed, removed, inlined or re-parameterised helper: it is compared through its callers (inlining)
 			missing = append(missing, key)
 			continue
 		}
